@@ -107,6 +107,17 @@ pub fn run(seed: u64, tier: &str, filter: &str, count: Option<u64>, out: &mut dy
             if is_size_operand(name) {
                 // resource envelope (C01 / C15): operand-controlled allocation sizes are bounded
                 cap_ints(&mut st, 2000);
+                if name == "CODE.RAND" {
+                    // the size operand of CODE.RAND is used by absolute value
+                    let n = st.int_stack.size();
+                    for i in 0..n {
+                        if let Some(v) = st.int_stack.get_mut(i) {
+                            if *v < -2000 {
+                                *v = -((*v as i64).abs() % 2000) as i32;
+                            }
+                        }
+                    }
+                }
             }
             out(format!("#c exec {} {}", name, case));
             out(observe_exec(&mut iset, name, st));
